@@ -242,7 +242,8 @@ class FortranGen:
                      1.0 if "<state>r" in self.types else 0,   # 19 scalar assigned an integer and a real
                      0.8,                    # 20 user function returning (scalar, user type)
                      1.5 if ("<state>v" in self.types and "<state>r" in self.types) else 0,   # 21 one built-in, both user types
-                     1.0 * c12]              # 22 read, rebind, read again
+                     1.0 * c12,              # 22 read, rebind, read again
+                     1.0]                    # 23 temporary whose last use is a compound call argument
                 k = t.weighted(w, "opkind")
                 op = self.gen_op(k, D, depth)
                 if op is None:
@@ -520,6 +521,23 @@ class FortranGen:
                     kws.reverse()
                 return ("call", (tgt,), Call("<builtin>matmul", [Var(a), Var(a)], kws), self.mode())
             return ("call", (tgt,), Call("<builtin>matmul", [Var(a), Var(a), Const(c), Const(r)]), self.mode())
+        if k == 23:
+            # a fresh user-type temporary whose only use is inside a compound argument of a call: its last use
+            # is then a statement that the Fortran pipeline makes up (and names) itself
+            u = self.new_name(UT_TEMPS, "ut", D, reuse_p=0.0)
+            tgt = self.new_name([n for n in UT_TEMPS if n != u], "ut", D)
+            if u is None or tgt is None or u in D or u == tgt:
+                return None
+            src = self.pick([x for x in uts if x not in (u, tgt)] or ["<state>y"], "lu_src")
+            self.used_funcs.add("<func>f")
+            D.add(u)
+            D.add(tgt)
+            arg = [Bin("*", Const(self.pick(DYADIC, "lu_c")), Var(u)), Bin("+", Var(u), Var(src)),
+                   Bin("-", Var(src), Bin("*", Var("<dt>"), Var(u)))][t.draw(3, "lu_form")]
+            return [("assign", u, None, Bin("+", Var(src), Bin("*", self.g_scal_factor(D), Var(src))), [], self.mode()),
+                    ("call", (tgt,), Call("<func>f", [Var("<t>"), arg]), self.mode()),
+                    ("assign", "<state>y", None, Bin("+", Var("<state>y"), Bin("*", Const(0.25), Var(tgt))), [],
+                     self.mode())]
         if k == 22:
             # a user-type temporary is read element-wise, bound to other storage, and read element-wise again
             # in the same phase (whatever the generated code remembers about it from the first read is stale)
